@@ -123,7 +123,9 @@ func belongs(o *Obligation, con *Contract, ps *propSpec) bool {
 		return false
 	}
 	if ps.allFns {
-		return true
+		// a function whose panic-freedom is not claimed (flag nosafety) contributes only the clauses tagged
+		// with the property
+		return con == nil || !con.flag("nosafety") || hasProp(con.Props, ps.id)
 	}
 	return con != nil && hasProp(con.Props, ps.id)
 }
@@ -202,9 +204,11 @@ func runCheck(id, tier, repo, verif string, writeEvidence bool) int {
 		}
 		if ps.allFns && con.flag("nosafety") && !hasProp(con.Props, id) {
 			// a driver function whose panic-freedom is not claimed (too many callees without contracts);
-			// listed in the evidence
+			// listed in the evidence. Clauses tagged with the property are still checked.
 			cr.skipped = append(cr.skipped, name)
-			continue
+			if !clauseMentions(con, id) {
+				continue
+			}
 		}
 		if ps.allFns || hasProp(con.Props, id) || clauseMentions(con, id) {
 			names = append(names, name)
